@@ -17,6 +17,7 @@ import (
 	"runtime"
 	"sync"
 	"testing"
+	"time"
 	"unicode/utf8"
 
 	"github.com/ontio/ontology-crypto/ec"
@@ -542,11 +543,13 @@ func TestC43(t *testing.T) {
 	r.Rule("every (key type, curve, signature scheme) the wallet accepts × password classes {one-byte, ascii, long-1KiB, unicode, nul-bytes, high-bytes, spaces, letters-only} × label classes; " +
 		"each case: NewAccount → wallet file → fresh Open → getters by address/index/label with the right password, then 7 kinds of other passwords; " +
 		"export metadata → ImportAccount into a second wallet → reopen → same oracle; some wallets are converted to their own scrypt parameters (ToLowSecurity) and a further account is created inside; " +
-		"distinct = (path, combination, password class, label class / wrong-password kind)")
+		"part 2: per wallet a seeded script against a model — successful ChangePassword (new opens, old refused, in memory and after reload), then every mutating operation {ChangePassword, NewAccount, ImportAccount, import of an existing address, SetLabel, SetDefaultAccount, DeleteAccount, ChangeSigScheme, first save} once while the wallet file cannot be saved, followed by a successful saving operation and a reload; " +
+		"distinct = (path, combination, password class, label class / wrong-password kind) and (operation, fault/ok)")
 	r.Assume("keys are generated by the wallet from crypto/rand, so key material differs between runs; the case list (combination, password, label) is a function of (seed, tier)")
 	r.Assume("passwords are non-empty byte strings: the wallet refuses the empty password at creation and at decryption (observed and counted, not judged)")
 	r.Assume("lookup by label is judged only for labels that are valid UTF-8 (the wallet file is JSON); lookup by address and index is judged for all labels")
 	r.Assume("AES-GCM forgery / scrypt collisions are negligible, so 'another password' must be refused")
+	r.Assume("save failures are injected by making the temporary file <wallet>~ (or the wallet directory) unusable; an operation that fails this way must leave every account with the password, key, label and default flag it had")
 	r.Assume("importing metadata into a wallet whose scrypt parameters differ from the exporting wallet is not representable (metadata carries no scrypt parameters) and is excluded")
 
 	root := pk.TempDir("c43")
@@ -603,6 +606,35 @@ func TestC43(t *testing.T) {
 	}
 	close(ch)
 	wg.Wait()
+
+	// part 2: password changes and save-failure injection (c43_fault_test.go)
+	t1 := time.Now()
+	nFault := r.N(16, 128)
+	fch := make(chan int)
+	for w := 0; w < workers; w++ {
+		wg.Add(1)
+		go func() {
+			defer wg.Done()
+			for id := range fch {
+				if p := kit.Catch(func() { x.runFaultJob(id, root) }); p != nil {
+					r.Violation("wallet-panic:fault-script", fmt.Sprintf("fault job %d: %v", id, p), map[string]interface{}{"job": id})
+				}
+			}
+		}()
+	}
+	for id := 0; id < nFault; id++ {
+		fch <- id
+	}
+	close(fch)
+	wg.Wait()
+	r.Set("fault_wallets", nFault)
+	r.Set("part2_wall_s", time.Since(t1).Seconds())
+	r.Require("password_change_roundtrips", nFault*3/4)
+	r.Require("fault_then_save_then_reload", nFault*5)
+	r.Require("fault_dead_password_refused", nFault*4)
+	for _, k := range []string{"ChangePassword", "NewAccount", "ImportAccount", "SetLabel", "SetDefaultAccount", "DeleteAccount", "NewAccount-first-save"} {
+		r.Require("fault_injected:"+k, nFault/2)
+	}
 	r.Sample(map[string]interface{}{"combo": combos[0].String(), "password_classes": pwdClasses, "label_classes": labelClasses,
 		"wrong_kinds": []string{"prefix", "extended", "prepended", "case-flip", "one-bit", "unrelated", "empty"}})
 	r.Sample(map[string]interface{}{"example_case": specs[0].c.String(), "pwd_class": specs[0].pclass, "label_class": specs[0].lclass})
